@@ -139,6 +139,11 @@ class DlnaDmrEventContentHandler(ContentHandler):
         if "val" not in attrs:
             return
 
+        # Strip namespace prefix.
+        if ":" in name:
+            index = name.find(":") + 1
+            name = name[index:]
+
         if name == "InstanceID":
             self._current_instance = attrs.get("val", "0")
         else:
@@ -154,15 +159,15 @@ class DlnaDmrEventContentHandler(ContentHandler):
             if attrs.get("channel") not in (None, "Master"):
                 return
 
-            # Strip namespace prefix.
-            if ":" in name:
-                index = name.find(":") + 1
-                name = name[index:]
-
             self.changes[current_instance][name] = attrs.get("val")
 
     def endElement(self, name: str) -> None:
         """Handle endElement."""
+        # Strip namespace prefix.
+        if ":" in name:
+            index = name.find(":") + 1
+            name = name[index:]
+
         if name == "InstanceID":
             self._current_instance = None
 
